@@ -13,6 +13,8 @@ import (
 	"fmt"
 	"reflect"
 	"sort"
+	"strconv"
+	"strings"
 	"testing"
 	"unsafe"
 
@@ -156,6 +158,7 @@ var roots = []root{
 	reg[[]RecU]("[]RecU"), reg[[]recl]("[]recl"), reg[[]U]("[]U"),
 	reg[[]frt.Tuple2[int, string]]("[](int*string)"),
 	reg[[]Opt[[]int]]("[]Opt<[]int>"), reg[[]Nest]("[]Nest"),
+	reg[frt.Tuple2[[]int, []int]]("[]int*[]int"), reg[frt.Tuple2[[]U, []U]]("[]U*[]U"),
 	reg[RecWithUnion]("RecWithUnion"), reg[lowerWithUnion]("lowerWithUnion"), reg[frt.Tuple2[int, U]]("int*U"),
 	reg[frt.Tuple3[U, string, U]]("U*string*U"), reg[W]("W"), reg[Opt[U]]("Opt<U>"), reg[G[U]]("G<U>"), reg[[]RecWithUnion]("[]RecWithUnion"),
 }
@@ -386,6 +389,133 @@ func aliased(rt *rapid.T, t reflect.Type, v Val) (Val, bool) {
 	return rebuild(v, pl.path), true
 }
 
+// siblingOf: a slice node marked "sib:<j>" is built from the memory of sibling j (same parent): the same
+// start, one element shorter - what slice.PopLast returns.
+func siblingOf(v Val) (int, bool) {
+	if v.K != "slice" || !strings.HasPrefix(v.A, "sib:") {
+		return 0, false
+	}
+	j, err := strconv.Atoi(v.A[4:])
+	return j, err == nil
+}
+
+// readable returns f in a form whose Slice result may be stored (unexported fields are read-only for reflect).
+func readable(f reflect.Value) reflect.Value {
+	if f.CanInterface() || !f.CanAddr() {
+		return f
+	}
+	return reflect.NewAt(f.Type(), unsafe.Pointer(f.UnsafeAddr())).Elem()
+}
+
+// innerShared returns a copy of v in which one slice is a prefix view of a sibling slice (both held by the
+// same value), and a second model that differs from it only in the last element of that sibling.
+func innerShared(rt *rapid.T, t reflect.Type, v Val) (Val, Val, bool) {
+	type place struct {
+		path []int
+		i, j int
+	}
+	var places []place
+	var walk func(t reflect.Type, v Val, path []int)
+	walk = func(t reflect.Type, v Val, path []int) {
+		switch v.K {
+		case "struct":
+			for i := range v.E {
+				for j := range v.E {
+					if i != j && v.E[j].K == "slice" && len(v.E[j].E) >= 1 && t.Field(i).Type == t.Field(j).Type {
+						places = append(places, place{append([]int{}, path...), i, j})
+					}
+				}
+				walk(t.Field(i).Type, v.E[i], append(append([]int{}, path...), i))
+			}
+		case "union":
+			walk(unionCases[t][v.C], v.E[0], append(append([]int{}, path...), 0))
+		case "slice":
+			if t.Elem().Kind() == reflect.Slice {
+				for i := range v.E {
+					for j := range v.E {
+						if i != j && len(v.E[j].E) >= 1 {
+							places = append(places, place{append([]int{}, path...), i, j})
+						}
+					}
+				}
+			}
+			for i := range v.E {
+				walk(t.Elem(), v.E[i], append(append([]int{}, path...), i))
+			}
+		}
+	}
+	walk(t, v, nil)
+	if len(places) == 0 {
+		return v, v, false
+	}
+	pl := places[rapid.IntRange(0, len(places)-1).Draw(rt, "innerPlace")]
+	var edit func(v Val, path []int, f func(parent *Val)) Val
+	edit = func(v Val, path []int, f func(parent *Val)) Val {
+		out := v
+		out.E = append([]Val{}, v.E...)
+		if len(path) == 0 {
+			f(&out)
+			return out
+		}
+		out.E[path[0]] = edit(v.E[path[0]], path[1:], f)
+		return out
+	}
+	x := edit(v, pl.path, func(p *Val) {
+		full := p.E[pl.j]
+		view := full
+		view.E = append([]Val{}, full.E[:len(full.E)-1]...)
+		view.A = fmt.Sprintf("sib:%d", pl.j)
+		p.E[pl.i] = view
+	})
+	// the other operand: same contents built independently, except for the last element of the sibling
+	var strip func(v Val) Val
+	strip = func(v Val) Val {
+		out := v
+		out.A = ""
+		out.E = nil
+		for _, e := range v.E {
+			out.E = append(out.E, strip(e))
+		}
+		return out
+	}
+	// (half of the time the other operand has the same inner sharing - xs and PopLast xs on one side, ys and
+	// PopLast ys on the other -, half of the time it is built from independent memory)
+	y := x
+	if rapid.Bool().Draw(rt, "otherSideIndependent") {
+		y = strip(x)
+	}
+	if rapid.IntRange(0, 3).Draw(rt, "innerSameValue") != 0 {
+		var elemT func(t reflect.Type, v Val, path []int) reflect.Type
+		elemT = func(t reflect.Type, v Val, path []int) reflect.Type {
+			if len(path) == 0 {
+				return t
+			}
+			switch v.K {
+			case "struct":
+				return elemT(t.Field(path[0]).Type, v.E[path[0]], path[1:])
+			case "union":
+				return elemT(unionCases[t][v.C], v.E[0], path[1:])
+			default:
+				return elemT(t.Elem(), v.E[path[0]], path[1:])
+			}
+		}
+		pt := elemT(t, v, pl.path)
+		var st reflect.Type
+		if pt.Kind() == reflect.Struct {
+			st = pt.Field(pl.j).Type
+		} else {
+			st = pt.Elem()
+		}
+		y = edit(y, pl.path, func(p *Val) {
+			full := p.E[pl.j]
+			full.E = append([]Val{}, full.E...)
+			full.E[len(full.E)-1] = mutate(rt, st.Elem(), full.E[len(full.E)-1])
+			p.E[pl.j] = full
+		})
+	}
+	return x, y, true
+}
+
 func setField(f reflect.Value, x reflect.Value) {
 	if !f.CanSet() {
 		f = reflect.NewAt(f.Type(), unsafe.Pointer(f.UnsafeAddr())).Elem()
@@ -411,12 +541,26 @@ func buildPeer(t reflect.Type, v Val, peer reflect.Value) reflect.Value {
 		return reflect.ValueOf(v.B)
 	case reflect.Struct:
 		out := reflect.New(t).Elem()
-		for i := 0; i < t.NumField(); i++ {
-			var p reflect.Value
-			if peer.IsValid() {
-				p = peer.Field(i)
+		for pass := 0; pass < 2; pass++ {
+			for i := 0; i < t.NumField(); i++ {
+				if j, ok := siblingOf(v.E[i]); ok {
+					// second pass: this slice is the already built sibling field j without its last element
+					if pass == 1 && j < t.NumField() && t.Field(j).Type == t.Field(i).Type && out.Field(j).Len() == len(v.E[i].E)+1 {
+						setField(out.Field(i), readable(out.Field(j)).Slice(0, len(v.E[i].E)))
+					} else if pass == 1 {
+						setField(out.Field(i), buildPeer(t.Field(i).Type, v.E[i], reflect.Value{}))
+					}
+					continue
+				}
+				if pass == 1 {
+					continue
+				}
+				var p reflect.Value
+				if peer.IsValid() {
+					p = peer.Field(i)
+				}
+				setField(out.Field(i), buildPeer(t.Field(i).Type, v.E[i], p))
 			}
-			setField(out.Field(i), buildPeer(t.Field(i).Type, v.E[i], p))
 		}
 		return out
 	case reflect.Interface:
@@ -441,12 +585,25 @@ func buildPeer(t reflect.Type, v Val, peer reflect.Value) reflect.Value {
 			}
 		}
 		elems := make([]reflect.Value, n)
-		for i := range elems {
-			var p reflect.Value
-			if peer.IsValid() && i < peer.Len() {
-				p = peer.Index(i)
+		for pass := 0; pass < 2; pass++ {
+			for i := range elems {
+				if j, ok := siblingOf(v.E[i]); ok {
+					if pass == 1 && j < n && elems[j].IsValid() && elems[j].Kind() == reflect.Slice && elems[j].Len() == len(v.E[i].E)+1 {
+						elems[i] = elems[j].Slice(0, len(v.E[i].E))
+					} else if pass == 1 {
+						elems[i] = buildPeer(t.Elem(), v.E[i], reflect.Value{})
+					}
+					continue
+				}
+				if pass == 1 {
+					continue
+				}
+				var p reflect.Value
+				if peer.IsValid() && i < peer.Len() {
+					p = peer.Index(i)
+				}
+				elems[i] = buildPeer(t.Elem(), v.E[i], p)
 			}
-			elems[i] = buildPeer(t.Elem(), v.E[i], p)
 		}
 		filler := reflect.Zero(t.Elem())
 		if n > 0 {
@@ -604,8 +761,19 @@ func TestOpEqual(t *testing.T) {
 		r := roots[rapid.IntRange(0, len(roots)-1).Draw(rt, "root")]
 		c := Case{Root: r.name}
 		c.X = genVal(rt, r.typ, 0)
-		kind := rapid.SampledFrom([]string{"copy", "copy", "mutant", "mutant", "independent", "triple", "shared", "shared"}).Draw(rt, "pairKind")
+		kind := rapid.SampledFrom([]string{"copy", "copy", "mutant", "mutant", "independent", "triple", "shared", "shared", "inner-shared", "inner-shared"}).Draw(rt, "pairKind")
 		switch kind {
+		case "inner-shared":
+			// a holds a slice and, next to it, a view of the same memory that is one element shorter
+			// (xs and slice.PopLast xs in one value); b has the same contents built independently,
+			// usually with another last element
+			x, y, ok := innerShared(rt, r.typ, c.X)
+			if !ok {
+				kind = "copy"
+				c.Y = repath(rt, c.X)
+			} else {
+				c.X, c.Y = x, repath(rt, y)
+			}
 		case "shared":
 			// b shares memory with a: one of its slices is a's slice itself, or a re-slice of it
 			y, ok := aliased(rt, r.typ, c.X)
